@@ -1,6 +1,6 @@
 (* Props/C07.v — C07: the GEM communication state follows the E30 establish-communications model.
    Theorems only.  Model: Model/GemComm.v over the regenerated communication machine; reference: Spec/E30Comm.v. *)
-From SG Require Import Base.Prelude Spec.E30Comm Model.StateMachine Model.GemComm Gen.Machines Proofs.CommProofs.
+From SG Require Import Base.Prelude Spec.E30Comm Model.StateMachine Model.GemComm Gen.Machines Proofs.CommProofs Gen.GemGate Proofs.GemGateProofs.
 Open Scope Z_scope.
 
 (* every history of enable/disable, link selected/lost, S1F13, S1F14 (any COMMACK, readable or not), other messages and
@@ -89,3 +89,25 @@ Example C07_example :
   snd (gcomm_run gc0 [YEnable; YLinkUp; YT3; YInOther true true; YDelay; YInS1F14 1 true; YDelay; YInS1F14 0 true; YInOther true true; YLinkDown; YLinkUp; YInS1F13 true]) =
   [[]; [YSendS1F13]; []; []; [YSendS1F13]; []; [YSendS1F13]; []; [YHandled]; []; [YSendS1F13]; [YSendS1F14 0]].
 Proof. vm_compute. reflexivity. Qed.
+
+(* The gate in front of every received message is tied to the source by a theorem: GemHandler._on_message_received is translated statement by
+   statement on every run (harness/gen_gemgate.py -> Gen/GemGate.v) into the list of things the handler does - answer S1F13 with the
+   application's COMMACK, request a transition of the communication state machine, hand the message to the stream/function dispatch - as a
+   function of the communication state, the message's stream and function, the application's decision, whether the answer could be sent and
+   whether an S1F14 accepts.  In every state the model treats an inbound S1F13 (accepted, denied, unanswerable), an inbound S1F14 (any COMMACK,
+   readable or not) and every other message exactly as that function says. *)
+Theorem C07_gate_code_is_model :
+  (forall (s : gc) (accept acc : bool), let a := (if accept then 0 else 1)%Z in
+     gcomm_step s (YInS1F13 accept) = run_acts true [YSendS1F14 a] s (gem_on_message (g_cur s) 1 13 a true acc)) /\
+  (forall s acc, gcomm_step s YInS1F13Unanswerable = run_acts false [] s (gem_on_message (g_cur s) 1 13 0 false acc)) /\
+  (forall s c readable cm sent,
+     gcomm_step s (YInS1F14 c readable) = run_acts sent [] s (gem_on_message (g_cur s) 1 14 cm sent (readable && (c =? 0)%Z))) /\
+  (forall s registered w st fn cm sent acc, (st, fn) <> (1, 13)%Z -> (st, fn) <> (1, 14)%Z ->
+     gcomm_step s (YInOther registered w) = run_acts sent (if registered || w then [YHandled] else []) s (gem_on_message (g_cur s) st fn cm sent acc)).
+Proof. exact (conj gate_s1f13 (conj gate_s1f13_unanswerable (conj gate_s1f14 gate_other))). Qed.
+Print Assumptions C07_gate_code_is_model.
+Example C07_gate_sample :
+  gem_on_message communication_WAIT_DELAY 1 13 0 true false = [GSendS1F14 0; GTransition "s1f13received"%string] /\
+  gem_on_message communication_WAIT_CRA 1 14 0 true false = [GTransition "communicationreqfail"%string] /\
+  gem_on_message communication_COMMUNICATING 6 11 0 true false = [GHandle] /\ gem_on_message communication_NOT_COMMUNICATING 1 13 0 true true = [].
+Proof. repeat split; reflexivity. Qed.
